@@ -84,7 +84,8 @@ inline uint32_t chk_of_occ(int32_t occ) {
 
 // ---------------------------------------------------------------------------------------------
 // plan pieces decided per op
-enum Api : uint8_t { API_PROCESS = 0, API_ENQUEUE = 1, API_DEFER = 2 };
+enum Api : uint8_t { API_PROCESS = 0, API_ENQUEUE = 1, API_DEFER = 2,
+                     API_CLEARDEF = 3 };   // clear_deferred_queue() called from inside a behaviour (back / back11; a no-op for backmp11)
 
 struct Post {
     uint8_t cb = 0;     // callback kind (K_G..K_EC)
